@@ -12,7 +12,7 @@ use std::sync::Arc;
 pub type Result<T> = std::result::Result<T, Error>;
 pub struct ControlStrategy { pub c: u8 }
 /// the fields of flow::Rule this function reads; everything else is behind `rule_eq` / `stat_reusable`
-pub struct Rule { pub resource: String, pub control_strategy: ControlStrategy, pub rest: u64 }
+pub struct Rule { pub id: String, pub resource: String, pub control_strategy: ControlStrategy, pub rest: u64 }
 #[verifier::external_body] pub struct ParamsMetric { _p: u8 }
 #[verifier::external_body] pub struct Controller { _p: u8 }
 #[verifier::external_body] pub struct Generator { _p: u8 }
